@@ -14,7 +14,7 @@ pub struct Sel {
     pub b: i128,
 }
 
-pub const SELS: [Sel; 11] = [
+pub const SELS: [Sel; 12] = [
     Sel { name: "..", form: Form::Full, a: 0, b: 0 },
     Sel { name: "1..", form: Form::From, a: 1, b: 0 },
     Sel { name: "..-1", form: Form::To, a: 0, b: -1 },
@@ -26,6 +26,7 @@ pub const SELS: [Sel; 11] = [
     Sel { name: "5..", form: Form::From, a: 5, b: 0 },
     Sel { name: "2..1", form: Form::Range, a: 2, b: 1 },
     Sel { name: "..=-9", form: Form::ToInclusive, a: 0, b: -9 },
+    Sel { name: "1..=-1", form: Form::Inclusive, a: 1, b: -1 },
 ];
 
 /// A window: `cells[r][c]` = coordinates (row, col) of the base-surface cell shown at (r, c).
